@@ -88,8 +88,8 @@ CallOk(r, whole, valuesOk) ==
 \* line integrals along the lines of response": decided
 \*  (i)  on exponent instances: a uniform box of mu = mu16/2^16 cm^-1 (all planes), a direct (segment 0) bin of
 \*       an interior ring whose line of response is parallel to an image axis and whose whole tube (half a
-\*       sampling distance plus one voxel of margin on either side) crosses the box: the line integral is
-\*       mu * box length, whatever the discretisation of the projector;
+\*       sampling distance plus one voxel of margin on either side) crosses the box inside the projector's
+\*       cylindrical field of view: the line integral is mu * box length, whatever the discretisation;
 \*  (ii) as relations between recorded tables: ACF(0) = 1, ACF(mu1 + mu2) = ACF(mu1) ACF(mu2), monotone in mu,
 \*       ACF >= 1 for mu >= 0.
 AbsV(x) == IF x < 0 THEN -x ELSE x
@@ -100,9 +100,17 @@ ChordLen(cfg, d, b) ==       \* millimetres; 0 = not an exponent instance
       perpHalf == IF phi = 0 THEN ((2 * d.bx + 1) * cfg.vx8) \div 2 ELSE ((2 * d.by + 1) * cfg.vy8) \div 2
       margin == (cfg.samp8 \div 2) + (IF phi = 0 THEN cfg.vx8 ELSE cfg.vy8)
       len == IF phi = 0 THEN ((2 * d.by + 1) * cfg.vy8) \div 256 ELSE ((2 * d.bx + 1) * cfg.vx8) \div 256
+      \* the projectors restrict lines of response to a cylindrical field of view (documented default of the
+      \* ray-tracing projectors); its radius is at least min(max x index * vx, max y index * vy): the whole chord
+      \* of the tube has to lie inside it (units 1/256 mm, all squares < 2^31)
+      fov == Min2(Min2(cfg.maxx, -cfg.minx) * cfg.vx8, Min2(cfg.maxy, -cfg.miny) * cfg.vy8)
+      halfLen8 == len * 128
   IN IF /\ b.seg = 0 /\ b.ax > 0 /\ b.ax < NumAxOf(cfg.G, 0) - 1
         /\ phi \in {0, 32768}
         /\ s + margin <= perpHalf
+        /\ fov < 40000 /\ halfLen8 < 40000 /\ s + margin < 40000
+        /\ halfLen8 * halfLen8 + (s + margin) * (s + margin) <= fov * fov
+        /\ ChordApplicable(d.mu16, len)          \* (32-bit arithmetic of the closed form: integral < 2.7)
         /\ -d.bx >= cfg.minx /\ d.bx <= cfg.maxx /\ -d.by >= cfg.miny /\ d.by <= cfg.maxy
         /\ cfg.vx8 % 256 = 0 /\ cfg.vy8 % 256 = 0
      THEN len ELSE 0
